@@ -55,6 +55,7 @@ ASSUMPTIONS = [
 ]
 
 FUEL = 1100
+MAX_CRASHES = 4
 TH_STD = ["0:0", "1:-60", "1:-20", "1:-3", "1:-1", "1:0", "2:0"]
 
 
@@ -402,10 +403,17 @@ def run_impl(ctx, exe, cases):
     res = [None] * len(cases)
     start = 0
     guard = 0
+    crashes = 0
     while start < len(cases) and guard < 50:
         guard += 1
+        if crashes >= MAX_CRASHES:
+            # a library that dies on many inputs: a few replays are enough, do not spend the budget on the rest
+            for k in range(start, len(cases)):
+                if res[k] is None:
+                    res[k] = {"lines": [], "crashed": None, "skipped": True}
+            break
         inp = "".join(case_line_impl(k, cases[k]) for k in range(start, len(cases)))
-        r = ctx.run(exe, inp, timeout=300)
+        r = ctx.run(exe, inp, timeout=240)
         recs, ended = split_records(r.out, len(cases))
         last = start - 1
         for k in sorted(recs):
@@ -418,8 +426,9 @@ def run_impl(ctx, exe, cases):
         bad = next((k for k in range(start, len(cases)) if res[k] is None), None)
         if bad is None:
             break
-        why = r.sanitizer or ("timeout (300 s)" if r.timed_out else "rc=%s %s" % (r.rc, r.err[-400:]))
+        why = r.sanitizer or ("timeout (240 s for the batch)" if r.timed_out else "rc=%s %s" % (r.rc, r.err[-400:]))
         res[bad] = {"lines": recs.get(bad, []), "crashed": str(why)}
+        crashes += 1
         start = bad + 1
     for k in range(len(cases)):
         if res[k] is None:
@@ -633,6 +642,15 @@ def check_impl_alone(ctx, c, d, pts, stats, report):
         if not all(math.isfinite(v) for v in cell[1:5] + cell[9:11]):
             return report("non-finite box or centre of mass in the tree")
     kids = tree_children(cells)
+    if c["mode"] == "E" and not c["kind"].startswith("tol"):
+        x0, x1, y0, y1 = root_box(c["root"])[:4]
+        for i, b in zip(c["order"], d["R"]):
+            inside = x0 <= pts[i][0] <= x1 and y0 <= pts[i][1] <= y1
+            if inside and b != 1:
+                return report("insert(%d) returns false although the point lies in the root box "
+                              "(the 'this should never happen' exit; children_cover)" % i)
+            if not inside and b != 0:
+                return report("insert(%d) returns true although the point lies outside the root box" % i)
     if c["kind"].startswith("tol"):
         lost, crack = crack_explains(c, d, kids)
         if lost and crack:
@@ -768,6 +786,7 @@ def evaluate(ctx, exe, mexe, cases, stats, with_model=True, record=True):
     fails = [None] * len(cases)
     sigs = [None] * len(cases)
     impls = [None] * len(cases)
+    skipped = set()
 
     def mk_report(k):
         def report(why, signature=None):
@@ -779,6 +798,9 @@ def evaluate(ctx, exe, mexe, cases, stats, with_model=True, record=True):
     ptsF = [[(fr(a), fr(b)) for a, b in c["pts"]] for c in cases]
     for k, (c, r) in enumerate(zip(cases, impl_raw)):
         report = mk_report(k)
+        if r.get("skipped"):
+            skipped.add(k)
+            continue
         if r["crashed"]:
             report("the real quadtree aborts / hangs on this input: " + r["crashed"][:600])
             continue
@@ -830,7 +852,7 @@ def evaluate(ctx, exe, mexe, cases, stats, with_model=True, record=True):
                            % (ci, cum, cell[9], cell[10], float(ex0), float(ex1)))
                     break
     if with_model:
-        ex_cases = [k for k, c in enumerate(cases) if not c["kind"].startswith("tol")]
+        ex_cases = [k for k, c in enumerate(cases) if not c["kind"].startswith("tol") and k not in skipped]
         models = run_model(ctx, mexe, [cases[k] for k in ex_cases])
         for k, ml in zip(ex_cases, models):
             c = cases[k]
@@ -841,6 +863,8 @@ def evaluate(ctx, exe, mexe, cases, stats, with_model=True, record=True):
                 ctx.note("model stopped with %s on a %s case" % (m["stop"], c["kind"]))
                 continue
             d = impls[k]
+            if k in skipped:
+                continue
             if d is None:
                 ctx.mismatch(c, "implementation gives no tree where the model does: " + str(fails[k])[:200])
                 continue
